@@ -318,14 +318,10 @@ func ruleC06R3(c *Ctx) {
 	c.check(labOK, "C06.R3", np, "metric label values derive from this pipeline's key values", start.Pos(), "append(…, keys...)", "the key_* label values are not the key values of this pipeline")
 	// the starter: one tag / one id for all outputs
 	ps := returnedClosure(c.P.Fn("orchestrate/obase.PrepareSequentialPipeline"))
+	// by position in the PipelineStarter signature (logger, metric creator, input channel, buffer id, output tag, onStopped)
 	var tagP, idP ssa.Value
-	for _, p := range ps.Params {
-		switch p.Name() {
-		case "outputTag":
-			tagP = p
-		case "bufferID":
-			idP = p
-		}
+	if len(ps.Params) == 6 && isStringType(ps.Params[3].Type()) && isStringType(ps.Params[4].Type()) {
+		idP, tagP = ps.Params[3], ps.Params[4]
 	}
 	if tagP == nil || idP == nil {
 		broken("C06.R3: the pipeline starter no longer has bufferID / outputTag parameters")
